@@ -55,6 +55,24 @@ def handler(job):
     pol = {0: None, 1: True, 2: False}[job.get("pol", 0)]
     if job.get("delays") or job.get("fsize_limit") is not None:
         install_job_wrapper(job.get("delays"), job.get("fsize_limit"), job.get("fail_index"))
+    # history: the SAME path held shorter files before and was converted / learned from in this very process
+    # (whatever a call remembers about a path must not survive the call)
+    earlier_failures = []
+    for hk, k in enumerate(job.get("earlier_prefixes") or []):
+        write_event_file(path, events[:k], freq=(job.get("freq") or [])[:k] or None)
+        try:
+            if job["mode"] == "convert":
+                preprocess.create_binary_event_files(path, os.path.join(wd, "chunks_earlier_%d" % hk), job["cue_map"],
+                                                     job["outcome_map"], n_jobs=job["n_jobs"],
+                                                     events_per_file=job["per"], remove_duplicates=pol)
+            elif k > 0:
+                ndl.ndl(path, from_ratio(job["alpha"]), (from_ratio(job["beta1"]), from_ratio(job["beta2"])),
+                        from_ratio(job["lam"]), method=job["method"], n_jobs=job["n_jobs"], remove_duplicates=pol,
+                        events_per_temporary_file=job["per"])
+        except Exception as e:      # noqa  (duplicates under the default policy etc.: the main call decides)
+            earlier_failures.append(type(e).__name__)
+    if job.get("earlier_prefixes"):
+        write_event_file(path, events, freq=job.get("freq"))
     before_tmp = sorted(os.listdir(os.environ["TMPDIR"]))
     t0 = time.time()
     if job["mode"] == "convert":
@@ -86,6 +104,7 @@ def handler(job):
         res = capture(go)
         res["tmp_left"] = sorted(os.listdir(tmpdir))
     res["wall_s"] = round(time.time() - t0, 2)
+    res["earlier_failures"] = earlier_failures
     res["system_tmp_new"] = sorted(set(os.listdir(os.environ["TMPDIR"])) - set(before_tmp))
     return res
 
